@@ -172,6 +172,10 @@ PROPS = {
     "C05": {
         "streams": [
             {"name": "assume", "mode": "answers", "quick": 400, "thorough": 10000, "args": ["--mix", "assume=1"]},
+            {"name": "assume-eq-nolearning", "mode": "answers", "quick": 1200, "thorough": 20000,
+             "args": ["--mix", "assume=1", "--eqassume", "1", "--nolearning", "1"]},
+            {"name": "assume-eq", "mode": "answers", "quick": 600, "thorough": 10000,
+             "args": ["--mix", "assume=1", "--eqassume", "1"]},
         ],
         "relevant": panic_or({"asol", "averdict", "core", "conflicting", "sol", "verdict", "partial"}, ["assume"]),
         "level_text": "Proof: checkCore_iff (accepted core <-> IsCore: every core predicate implied by the assumptions within the declared domains, model /\\ core inconsistent), core_refutes, withAtoms_sat; Atom.mutex models Predicate::is_mutually_exclusive_with arm by arm with mutex_iff (exactness over all integers). Tie to code: 1-3 assumption solves (all predicate kinds, duplicates, contradictory pairs, root-true/false) + a plain solve afterwards on one solver; every solution, verdict, core and conflicting-pair report is judged.",
